@@ -324,10 +324,10 @@ class Engine:
 
     def branch(self, cond):
         """True/False fork on a z3 Bool."""
-        cond = z3.simplify(cond)
-        if z3.is_true(cond):
+        sc = z3.simplify(cond)     # only to recognise trivial conditions; the unsimplified term is what is assumed
+        if z3.is_true(sc):
             return True
-        if z3.is_false(cond):
+        if z3.is_false(sc):
             return False
         return self.choose([cond, z3.Not(cond)]) == 0
 
@@ -413,8 +413,7 @@ class Engine:
     def prove_internal(self, what, cond, exc_cls):
         """A Python-level implicit check (None arithmetic, index in range...): if it can fail the code raises
         exc_cls at this point; we fork so that the exceptional path is explored like any raise."""
-        cond = z3.simplify(cond)
-        if z3.is_true(cond):
+        if z3.is_true(z3.simplify(cond)):
             return
         if self.pure:
             return    # contract expressions are total: partial operations are underspecified terms
@@ -466,6 +465,8 @@ class Engine:
         if name in mod.funcs:
             return PyObj('func', mod.funcs[name])
         if name in mod.classes:
+            if self.exc.known(name) and mod.name == 'afkak.common':
+                return PyObj('excclass', name)
             return PyObj('class', mod.classes[name])
         if name in mod.assigns:
             return self.module_const(mod, name)
@@ -591,10 +592,10 @@ class Engine:
         return self.eval(node.orelse, fr)
 
     def ite(self, c, a, b):
-        c = z3.simplify(c)
-        if z3.is_true(c):
+        sc = z3.simplify(c)
+        if z3.is_true(sc):
             return a
-        if z3.is_false(c):
+        if z3.is_false(sc):
             return b
         if a.ty != b.ty:
             ty = self.join_ty(a.ty, b.ty)
@@ -911,6 +912,13 @@ class Engine:
                 fr.vars[nm] = self.eval(val, fr)
         return self.eval(ci.assigns[attr], fr)
 
+    def drain_term(self, g, c):
+        """the item sequence a generator value produces when drained: an uninterpreted function of its arguments
+        (so the contract text `drain(mkgen(...))` and an executed `for x in gen` talk about the same term)"""
+        lty = ('list', c.item_ty)
+        f = UF('drain_' + T.mangle(g.ty), T.sort_of(g.ty), T.sort_of(lty))
+        return V(lty, f(g.t))
+
     def drain_gen(self, g, fr):
         """Iterating a generator value whose producer is under contract: (items, after_exit)."""
         qn = g.ty[1]
@@ -924,7 +932,8 @@ class Engine:
             pass
         fr_c = Frame(fi)
         args = T.tuple_items(V(('tuple', tuple(g.ty[2])), g.t))
-        for (pn, pt, _), a in zip(c.params, args):
+        names = [p[0] for p in c.params] + [n for n in c.closure_env if c.closure_env[n] != 'closure']
+        for pn, a in zip(names, args):
             fr_c.vars[pn] = a
         outcomes = [('ok', None)]
         must = []
@@ -941,16 +950,20 @@ class Engine:
         idx = self.choose(conds) if len(conds) > 1 else 0
         if len(conds) == 1:
             self.assume(ok_cond)
-        items = self.fresh(('list', c.item_ty), 'items')
+        items = self.drain_term(g, c)
         fr_c.ghost['result'] = items
         fr_c.ghost['yielded'] = items
         if idx == 0:
             for name, e in c.ensures.items():
                 self.assume(self.pure_bool(e, fr_c))
             return items, None
-        for e in c.extra.get('partial', {}).values():
-            self.assume(self.pure_bool(e, fr_c))
         exc_name = outcomes[idx][0].split('[')[0]
+        for e in c.extra.get('partial', {}).values():
+            if isinstance(e, tuple):
+                if not self.exc.issub(exc_name, e[0]):
+                    continue
+                e = e[1]
+            self.assume(self.pure_bool(e, fr_c))
 
         def after():
             raise PyRaise(exc_name, msg='raised while draining %s' % qn)
@@ -1014,6 +1027,12 @@ class Engine:
             else:
                 raise Unsupported('missing argument %s' % name)
             if isinstance(v, V):
+                if v.ty[0] == 'opt' and ty[0] != 'opt' and ty != ANY and T.coercible(v.ty[1], ty) and not self.pure:
+                    # None passed where a value is required: the callee fails on first use (TypeError);
+                    # a generator function runs nothing at the call, so there the failure is deferred (underspecified)
+                    if not getattr(self, '_lazy_bind', False):
+                        self.prove_internal('None passed for %s' % name, z3.Not(T.is_none(v)), 'TypeError')
+                    v = T.opt_val(v)
                 try:
                     v = T.coerce(v, ty)
                 except T.TypeMismatch as e:
@@ -1031,9 +1050,10 @@ class Engine:
             args = [fobj.extra] + list(args)
         if c is None:
             raise Unsupported('call of %s which has no contract' % qn)
-        if c.inline:
+        if c.inline or c.extra.get('inline_at_calls'):
             return self.inline_call(fi, c, fobj, args, kwargs)
-        return self.apply_contract(fi, c, args, kwargs, node)
+        return self.apply_contract(fi, c, args, kwargs, node,
+                                   closure_frame=fobj.extra if fobj.kind == 'closure' else None)
 
     def inline_call(self, fi, c, fobj, args, kwargs):
         fr2 = Frame(fi, parent=fobj.extra if fobj.kind == 'closure' else None)
@@ -1057,10 +1077,23 @@ class Engine:
             return r.v
         return VNONE
 
-    def apply_contract(self, fi, c, args, kwargs, node, site=None):
+    def apply_contract(self, fi, c, args, kwargs, node, site=None, closure_frame=None):
         """Modular call: assert requires, pick an outcome, assume ensures."""
         fr_c = Frame(fi)
-        bound = self.bind_args(c.params, args, dict(kwargs), defaults_frame=fr_c)
+        self._lazy_bind = bool((fi is not None and fi.is_generator and not fi.is_inline_callbacks) or c.kind == 'generator')
+        if c.closure_env and closure_frame is not None:
+            # free variables of the closure, read from its defining frame at the call
+            for name, tys in c.closure_env.items():
+                if tys == 'closure':
+                    continue
+                v = closure_frame.lookup(name)
+                if v is None:
+                    raise Unsupported('closure variable %s is not bound at the call of %s' % (name, c.qualname))
+                fr_c.vars[name] = T.coerce(v, T.parse_ty(tys)) if isinstance(v, V) else v
+        try:
+            bound = self.bind_args(c.params, args, dict(kwargs), defaults_frame=fr_c)
+        finally:
+            self._lazy_bind = False
         fr_c.vars.update(bound)
         nm = (fi.qualname if fi else c.qualname).split('afkak.')[-1]
         self.callcount[nm] = self.callcount.get(nm, 0) + 1
@@ -1070,10 +1103,15 @@ class Engine:
             if c.requires:
                 for i, r in enumerate(c.requires):
                     self.prove('pre@%s.%d' % (siteid, i + 1), self.pure_bool(r, fr_c), kind='pre')
-            gty = ('gen', c.qualname, tuple(p[1] for p in c.params))
-            return V(gty, T.mk_tuple([bound[p[0]] for p in c.params]).t)
-        for i, r in enumerate(c.requires):
-            self.prove('pre@%s.%d' % (siteid, i + 1), self.pure_bool(r, fr_c), kind='pre')
+            envn = [n for n in c.closure_env if c.closure_env[n] != 'closure']
+            gty = ('gen', c.qualname, tuple(p[1] for p in c.params) + tuple(T.parse_ty(c.closure_env[n]) for n in envn))
+            return V(gty, T.mk_tuple([bound[p[0]] for p in c.params] + [fr_c.vars[n] for n in envn]).t)
+        self.forall_mode = 'prove'
+        try:
+            for i, r in enumerate(c.requires):
+                self.prove('pre@%s.%d' % (siteid, i + 1), self.pure_bool(r, fr_c), kind='pre')
+        finally:
+            self.forall_mode = 'assume'
         outcomes = [('ok', None)]
         conds = []
         must = []
@@ -1112,7 +1150,11 @@ class Engine:
 
     def pure_bool(self, src, fr):
         v = self.pure_expr(src, fr)
-        return z3.simplify(self.truth(v)) if not z3.is_bool(getattr(v, 't', None)) else v.t
+        t = self.truth(v) if not z3.is_bool(getattr(v, 't', None)) else v.t
+        st = z3.simplify(t)
+        if z3.is_true(st) or z3.is_false(st):
+            return st
+        return t
 
     # ------------------------------------------------------------------ statements
     def exec_block(self, stmts, fr):
